@@ -3,6 +3,8 @@ import Driver.SimDriver
 import Driver.InteropDriver
 import Driver.AssertionDriver
 import Driver.NumDriver
+import Driver.DispatcherDriver
+import Driver.RandomTripDriver
 open Lean
 
 def handle (line : String) : String :=
@@ -20,6 +22,8 @@ def handle (line : String) : String :=
       | "assertion" => AssertionDriver.run j
       | "camera" => NumDriver.run j
       | "geo" => NumDriver.run j
+      | "dispatcher" => DispatcherDriver.run j
+      | "randomtrip" => RandomTripDriver.run j
       | _ => .error s!"unknown kind {kind}"
     match r with
     | .ok v => v.compress
